@@ -13,6 +13,8 @@ type VAlg struct {
 	Touch   func(c any, x int) // mutate c: remove everything, add x
 	Ordered bool               // TreeSet: Values() ascending by the operands' comparator
 	Hash    bool               // HashSet: Values() in no particular order
+	Inv     func(c any)        // representation invariant of a set of this kind (the result must be a sound set)
+	Has     func(c any, x int) bool
 }
 
 func vMember(seq []int, p int) bool {
@@ -59,8 +61,10 @@ func VAlgStep(g VAlg) {
 	v.BeginOp(true, g.A, g.B)
 	r := g.Apply(op)
 	v.EndOp()
+	g.Inv(r)
 	rv := g.Values(r)
 	p := v.Int("probe")
+	v.Assert(g.Has(r, p) == vMember(rv, p), "C13:result-contains-disagrees-with-its-values")
 	ina, inb, inr := vMember(av, p), vMember(bv, p), vMember(rv, p)
 	switch op {
 	case 0:
